@@ -121,11 +121,27 @@ CHECKS = {
              "result and receiver-afterwards, both runtimes must reproduce them.",
         note="Type-only (no value oracle) for compare_lev, parse_float, to_json_indent, to_lower/upper, replace, join.",
         design="5/C18"),
+    "C03": dict(
+        technique="TLA+ type checker (HmsTypes: Compat, TypeOf, CheckStmt, CheckProgram with frozen operator / member / builtin "
+                  "tables) evaluated by TLC on every generated program and single-fault mutant; verdict and let-bound types "
+                  "replayed on the real analyzer",
+        text="Well-typed programs (typing forms, templates, captures, lambdas, operators x operand types, control nestings, seeded "
+             "random programs) and their single-fault mutants (a literal of another type in every expression position, arity, "
+             "unknown identifier / member / type, break / continue outside a loop or inside a function literal, duplicate function / "
+             "parameter / global, non-constant global, implicit any, main shape, declared / returned type incl. after a function "
+             "literal, operator outside its type, calling / indexing a non-function / non-container, loop and if values, missing "
+             "match default) are judged by HmsTypes: ok with the type of every let-bound variable, the class of the first broken "
+             "rule, or unspec. The analyzer must report no error-level diagnostic exactly for the ok programs and must have "
+             "recorded the same variable types.",
+        note="Not modelled (programs using them are not generated for C03): singletons, impl blocks / templates, trigger "
+             "statements and annotations, imports. Loops without a break that contain a diverging expression are unspec. "
+             "Trusted: the transcription of the rule tables.",
+        design="5/C03"),
     "C15": dict(
         technique="TLA+ spec of modules, imports and name resolution (HmsLink) model-checked with TLC over the "
                   "exhaustively enumerated 3-module graph space and all module visiting orders; every graph rendered "
                   "as real modules and analysed / run on both backends",
-        text="HmsLink enumerates 165888 graphs of three modules (contested function f private / pub / absent per module, "
+        text="HmsLink enumerates 663552 graphs of three modules (contested function f private / pub / absent per module, "
              "same-named globals x / hist and helper h in every module, a type T, every import list incl. private and "
              "missing items, a missing module, cycles through and beside main) and lets the modules be initialised in "
              "every order; TLC checks OnlyPubImportable, InitExactlyOnceBeforeMain, OrderIndependent, "
